@@ -19,12 +19,15 @@ RULE = ("random directory trees: up to 12 modules in packages of depth 0..3 spre
 ASSUMPTIONS = ["merged order observed through the public ModuleLoader API (class/function names)",
                "a root whose package directory holds no .bloch file (for instance only a sub-package) does not "
                "answer a wildcard import: the search continues with the next root, as for a missing file",
-               "kept out (not fixed by the docs): a file wildcard-importing its own package, file names "
+               "a module that wildcard-imports its own package gets its siblings (every file is loaded once; the "
+               "importing file is not a cycle with itself)",
+               "kept out (not fixed by the docs): file names "
                "differing only by case, unreadable files",
                "when several problems coexist the reference reports the first one in the documented "
                "depth-first import order (dependencies before importers)"]
 
-PKGS = [(), ("a",), ("a", "b"), ("util",), ("a", "b", "c"), ("bloch", "x"), ("zeta",)]
+PKGS = [(), ("a",), ("a", "b"), ("util",), ("a", "b", "c"), ("bloch", "x"), ("zeta",),
+        ("blochkit",), ("blochx", "y"), ("bloc",)]     # names that merely start like the reserved 'bloch' root
 
 
 class LoadError(Exception):
@@ -68,6 +71,8 @@ def gen_tree(rng, root):
                     entry["imports"].insert(0, ("sym", t["pkg"], t["name"]))   # ... after a correct import loaded it
             else:
                 m["imports"].append(("sym", t["pkg"], t["name"]))
+        if m["pkg"] and rng.random() < 0.12:
+            m["imports"].append(("wild", m["pkg"]))      # a module that imports its own package
         if rng.random() < 0.07:
             m["imports"].append(("sym", ("nope",), "Missing"))
     files = {}
@@ -200,7 +205,7 @@ def reference(cfg):
                 for t in targets:
                     ct = os.path.realpath(t)
                     if ct == canon:
-                        raise LoadError("kept-out:self-wildcard")
+                        continue     # its own package: the file itself is already being loaded, the rest is not
                     load_module(t)
                     if files[ct]["declared"] != tuple(imp[1]):
                         raise LoadError("package")
